@@ -113,10 +113,10 @@ func (m *Machine) RunPath(c *Ctx, harness *ssa.Function, stubs map[string]*ssa.F
 				if res.Status == "ok" || res.Status == "violation" {
 					res.Status = p.kind
 				}
-				res.Detail = p.msg
+				res.Detail = p.msg + i.panicTrace
 			}
 		case targetPanic:
-			m.recordPanic(c, res, "panic: "+panicString(p.v))
+			m.recordPanic(c, res, "panic: "+panicString(p.v)+i.panicTrace)
 		case runtime.Error:
 			if _, isTA := p.(*runtime.TypeAssertionError); isTA {
 				res.Status = "unsupported"
@@ -135,7 +135,7 @@ func (m *Machine) RunPath(c *Ctx, harness *ssa.Function, stubs map[string]*ssa.F
 					return
 				}
 			}
-			m.recordPanic(c, res, "panic: "+p.Error())
+			m.recordPanic(c, res, "panic: "+p.Error()+i.panicTrace)
 		default:
 			res.Status = "unsupported"
 			res.Detail = fmt.Sprintf("interpreter panic: %v\n%s", p, shortStack())
@@ -146,6 +146,7 @@ func (m *Machine) RunPath(c *Ctx, harness *ssa.Function, stubs map[string]*ssa.F
 	call(i, nil, token.NoPos, m.MainPkg.Func("init"), nil)
 	i.inInit = false
 	i.instrs = 0
+	i.panicTrace = ""
 	call(i, nil, token.NoPos, harness, nil)
 	return res
 }
@@ -194,6 +195,9 @@ func panicString(v value) string {
 func (m *Machine) recordPanic(c *Ctx, res *PathResult, msg string) {
 	mm, ins := c.CurrentInputs()
 	cls := msg
+	if k := strings.Index(cls, "\n"); k >= 0 {
+		cls = cls[:k]
+	}
 	if len(cls) > 120 {
 		cls = cls[:120]
 	}
@@ -208,6 +212,7 @@ func tolerantCall(fr *frame, instr *ssa.Call) (res value) {
 			if ea, ok := p.(engineAbort); ok && (ea.kind == "cap") {
 				panic(p)
 			}
+			fr.i.panicTrace = ""
 			if instr.Type() == nil {
 				res = nil
 				return
